@@ -135,7 +135,11 @@ def enclosing_stmt(n):
 
 
 class Repo:
-    def __init__(self, root: str, extra_files: Tuple[str, ...] = ()):
+    def __init__(self, root: str, extra_files: Tuple[str, ...] = (), inline: bool = False):
+        """inline=True: the second representation of the program - private helpers put back at their call sites (sa/inline.py)"""
+        self.inline = inline
+        self.inlined: List[str] = []
+        self._repo0 = Repo(root, extra_files) if inline else None
         self.root = os.path.abspath(root)
         self.pkgdir = os.path.join(self.root, PKG)
         if not os.path.isdir(self.pkgdir):
@@ -174,6 +178,14 @@ class Repo:
             tree = ast.parse(src, filename=path)
         except SyntaxError as e:
             raise AnalysisError(f"syntax error in {path}: {e}")
+        if self._repo0 is not None and rel_override is None:
+            from .inline import inline_tree
+
+            rel_ = rel.replace(os.sep, "/")
+            m0 = self._repo0.modules.get(rel_)
+            if m0 is not None:
+                tree, done = inline_tree(self._repo0, m0)
+                self.inlined.extend(done)
         set_parents(tree)
         if dotted_override:
             dotted = dotted_override
@@ -430,12 +442,19 @@ def _local_call_alias(name: ast.Name):
     for x in ast.walk(fn):
         if isinstance(x, ast.Name) and x.id == name.id and isinstance(x.ctx, (ast.Store, ast.Del)):
             stores.append(x)
-    if len(stores) != 1:
+    if not stores:
         return None
-    st = parent(stores[0])
-    if isinstance(st, ast.Assign) and len(st.targets) == 1 and st.targets[0] is stores[0] and isinstance(st.value, ast.Call) and not st.value.args and not st.value.keywords and isinstance(st.value.func, (ast.Name, ast.Attribute)):
-        return st.value
-    return None
+    vals = []
+    for s0 in stores:
+        st = parent(s0)
+        if isinstance(st, ast.Assign) and len(st.targets) == 1 and st.targets[0] is s0 and isinstance(st.value, ast.Call) and not st.value.args and not st.value.keywords and isinstance(st.value.func, (ast.Name, ast.Attribute)):
+            vals.append(st.value)
+        else:
+            return None
+    # several stores are fine when every one of them re-reads the same accessor (`s = state()` before and after a yield)
+    if len({ast.dump(v) for v in vals}) != 1:
+        return None
+    return vals[0]
 
 
 def attr_chain(e: ast.expr) -> Optional[List[str]]:
